@@ -31,6 +31,8 @@ def random_config(rng, wrappers=("interval",), allow_f32=True, levy=None, shapes
     t0 = rng.choice([0.0, -1.5, 2.0, 0.25, -0.5, -1.0])
     span = rng.choice([1.0, 0.37, max_span])
     cfg["t0"], cfg["t1"] = t0, t0 + span
+    # the end points may be handed over as 0-d tensors (this is what sdeint itself does for its default Brownian motion)
+    cfg["tensor_ends"] = rng.random() < 0.15
     if wrapper == "interval" or wrapper == "reverse":
         halfway = rng.random() < 0.25
         cfg["halfway"] = halfway
@@ -126,7 +128,10 @@ def build(cfg, step_hint=None):
                 dt = min(10 * base, span)
             elif mode == "small":
                 dt = base / 10
-        kw = dict(t0=cfg["t0"], t1=cfg["t1"], size=shape, dtype=dtype, entropy=cfg["entropy"],
+        e0, e1 = cfg["t0"], cfg["t1"]
+        if cfg.get("tensor_ends"):
+            e0, e1 = torch.tensor(e0, dtype=torch.float64), torch.tensor(e1, dtype=torch.float64)
+        kw = dict(t0=e0, t1=e1, size=shape, dtype=dtype, entropy=cfg["entropy"],
                   tol=cfg["tol"], cache_size=cfg["cache"], halfway_tree=cfg["halfway"],
                   levy_area_approximation=cfg["levy"], dt=dt)
         if cfg.get("pool") is not None:
@@ -144,7 +149,8 @@ def build(cfg, step_hint=None):
         return bmi, bmi, meta
     if w == "path":
         w0 = torch.randn(shape, dtype=dtype, generator=g)
-        bm = torchsde.BrownianPath(t0=cfg["t0"], w0=w0)
+        pk = {"window_size": 3} if cfg.get("tensor_ends") else {}  # (deprecated, must be harmless)
+        bm = torchsde.BrownianPath(t0=cfg["t0"], w0=w0, **pk)
         meta["w0"] = w0
         return bm, bm._interval, meta
     if w == "tree":
